@@ -29,12 +29,13 @@ def run(sc, module, trs, what, n, seed):
             scripts = []
             for req, resp in props.STREAM_KINDS:
                 kind = bgen.kind_of(req, resp)
-                consts = props.http_stream_consts(req, resp, 2, 3, 3)
+                consts = props.http_stream_consts(req, resp, 2, 3, 3, closers='{"cs"}' if "gated" in sys.argv[6:] else '{"cs", "cs2"}')
                 beh = bgen.simulate(sc, "MCHttpStream", consts, n, 40, seed, "devsim-" + kind, files=props.mc_files())
                 for j, b in enumerate(beh):
-                    scripts.append(bgen.stream_script(b, kind, trs.split(",")[0], "sim-%s-%d" % (kind, j), seed * 1000 + j))
+                    scripts.append(bgen.stream_script(b, kind, trs.split(",")[0], "sim-%s-%d" % (kind, j), seed * 1000 + j,
+                                                      gated="http" if "gated" in sys.argv[6:] else False))
         props.run_scripts(ctx, scripts, "dev")
-        print("violations:", [(v["prop"], v["why"]) for v in getattr(ctx, "allviol", [])][:10])
+        print("violations:", sorted(set((v["prop"], v["why"]) for v in getattr(ctx, "allviol", []))))
         d = sc.path("run-dev")
         files = sorted(os.path.join(d, f) for f in os.listdir(d)
                        if f.startswith("t") and ".ndjson" in f and not f.endswith((".meta", ".journal")))
